@@ -1,0 +1,175 @@
+//! Verification hooks (cargo feature `verif`, off by default).
+//!
+//! Counters, sync points and fail points used by the external runtime
+//! monitors. Nothing in here changes a branch of the normal code path: every
+//! entry point is a no-op unless it has been armed through the `VERIF` admin
+//! command, which itself only exists when the feature is enabled.
+
+use std::cell::Cell;
+use std::sync::atomic::{AtomicBool, AtomicI64, AtomicU64, Ordering};
+use std::sync::{Condvar, Mutex};
+use std::time::Duration;
+
+/// Event-loop iterations completed by `Server::run`.
+pub static LOOP_COUNT: AtomicU64 = AtomicU64::new(0);
+
+/// Completed passes of the expiry sweeper.
+pub static SWEEP_PASSES: AtomicU64 = AtomicU64::new(0);
+
+thread_local! {
+    /// Set on the thread running `Server::run`; sync points never park it.
+    static IS_COMMAND_THREAD: Cell<bool> = Cell::new(false);
+    /// Step counter of the save running on this thread.
+    static RDB_STEP: Cell<i64> = Cell::new(0);
+}
+
+pub fn mark_command_thread() {
+    IS_COMMAND_THREAD.with(|c| c.set(true));
+}
+
+fn on_command_thread() -> bool {
+    IS_COMMAND_THREAD.with(|c| c.get())
+}
+
+// ---------------------------------------------------------------------------
+// Generic one-shot sync point
+// ---------------------------------------------------------------------------
+
+#[derive(Default)]
+struct HoldState {
+    /// What the holder is waiting for (None = not armed).
+    armed: Option<(String, Vec<u8>)>,
+    /// Description of the thread currently parked, if any.
+    parked: Option<(String, Vec<Vec<u8>>)>,
+    /// Set by RELEASE; consumed by the parked thread.
+    release: bool,
+}
+
+pub struct SyncPoint {
+    fast: AtomicBool,
+    state: Mutex<Option<HoldState>>,
+    cv: Condvar,
+}
+
+impl SyncPoint {
+    pub const fn new() -> Self {
+        SyncPoint { fast: AtomicBool::new(false), state: Mutex::new(None), cv: Condvar::new() }
+    }
+
+    /// Arm the point for `phase`/`key` (empty key = any key).
+    pub fn arm(&self, phase: &str, key: &[u8]) {
+        let mut g = self.state.lock().unwrap();
+        let st = g.get_or_insert_with(HoldState::default);
+        st.armed = Some((phase.to_string(), key.to_vec()));
+        st.release = false;
+        self.fast.store(true, Ordering::SeqCst);
+    }
+
+    /// Release a parked thread (and disarm if nobody parked yet).
+    pub fn release(&self) {
+        let mut g = self.state.lock().unwrap();
+        let st = g.get_or_insert_with(HoldState::default);
+        st.armed = None;
+        st.release = true;
+        self.fast.store(false, Ordering::SeqCst);
+        self.cv.notify_all();
+    }
+
+    /// Snapshot: (parked phase, payload) if a thread is parked.
+    pub fn parked(&self) -> Option<(String, Vec<Vec<u8>>)> {
+        let g = self.state.lock().unwrap();
+        g.as_ref().and_then(|s| s.parked.clone())
+    }
+
+    /// Called by the instrumented thread. Parks iff armed for this phase/key.
+    /// One-shot: the first arrival disarms the point. Never parks the command
+    /// thread. A generous internal time limit (120 s) guarantees that a
+    /// forgotten RELEASE cannot wedge the process forever.
+    pub fn reach(&self, phase: &str, key: &[u8], payload: &dyn Fn() -> Vec<Vec<u8>>) {
+        if !self.fast.load(Ordering::Relaxed) {
+            return;
+        }
+        if on_command_thread() {
+            return;
+        }
+        let mut g = self.state.lock().unwrap();
+        let st = match g.as_mut() {
+            Some(s) => s,
+            None => return,
+        };
+        match &st.armed {
+            Some((p, k)) if p == phase && (k.is_empty() || k.as_slice() == key) => {}
+            _ => return,
+        }
+        st.armed = None;
+        st.release = false;
+        self.fast.store(false, Ordering::SeqCst);
+        st.parked = Some((phase.to_string(), payload()));
+        let mut waited = Duration::from_secs(0);
+        loop {
+            let (ng, _) = self.cv.wait_timeout(g, Duration::from_millis(200)).unwrap();
+            g = ng;
+            waited += Duration::from_millis(200);
+            let st = g.as_mut().unwrap();
+            if st.release || waited > Duration::from_secs(120) {
+                st.release = false;
+                st.parked = None;
+                return;
+            }
+        }
+    }
+}
+
+/// Sweeper: between its collect phase and its delete phase.
+pub static SWEEPER_HOLD: SyncPoint = SyncPoint::new();
+/// Save thread: between its per-key steps.
+pub static RDB_HOLD: SyncPoint = SyncPoint::new();
+
+// ---------------------------------------------------------------------------
+// RDB fail points
+// ---------------------------------------------------------------------------
+
+/// Step at which the next save fails (-1 = none).
+pub static RDB_FAIL_AT: AtomicI64 = AtomicI64::new(-1);
+/// true = abort the process instead of returning an error.
+pub static RDB_FAIL_ABORT: AtomicBool = AtomicBool::new(false);
+/// Steps performed by the last save that ran to completion.
+pub static RDB_LAST_STEPS: AtomicI64 = AtomicI64::new(-1);
+/// Saves started / finished (either way).
+pub static RDB_SAVES_STARTED: AtomicU64 = AtomicU64::new(0);
+pub static RDB_SAVES_FINISHED: AtomicU64 = AtomicU64::new(0);
+
+pub fn rdb_save_begin() {
+    RDB_STEP.with(|c| c.set(0));
+    RDB_SAVES_STARTED.fetch_add(1, Ordering::SeqCst);
+}
+
+pub fn rdb_save_end(ok: bool) {
+    if ok {
+        RDB_LAST_STEPS.store(RDB_STEP.with(|c| c.get()), Ordering::SeqCst);
+    }
+    RDB_SAVES_FINISHED.fetch_add(1, Ordering::SeqCst);
+}
+
+/// One step of a save (open, a raw write, the final flush, the rename).
+/// Returns an error when this is the armed step.
+pub fn rdb_step(what: &str) -> std::io::Result<()> {
+    let n = RDB_STEP.with(|c| {
+        let v = c.get();
+        c.set(v + 1);
+        v
+    });
+    let at = RDB_FAIL_AT.load(Ordering::Relaxed);
+    if at >= 0 && at == n {
+        if RDB_FAIL_AT.compare_exchange(at, -1, Ordering::SeqCst, Ordering::SeqCst).is_ok() {
+            if RDB_FAIL_ABORT.load(Ordering::SeqCst) {
+                std::process::abort();
+            }
+            return Err(std::io::Error::new(
+                std::io::ErrorKind::Other,
+                format!("verif: injected failure at save step {} ({})", n, what),
+            ));
+        }
+    }
+    Ok(())
+}
